@@ -660,9 +660,21 @@ async def _async_bidi(run, client, op):
     run.sim.ev("return", op=op["id"], value=None, cls=None)
 
 
-SYNC_EXEC = {"unary": _sync_unary, "paged": _sync_paged, "lro": _sync_lro, "sstream": _sync_sstream,
+def _sync_reseed(run, client, op):
+    """Legal host behaviour (a 'fault' for anything that draws ids from the global PRNG): the
+    application re-seeds `random` with a fixed value, as many test/batch/ML jobs do per job or epoch."""
+    import random
+    random.seed(op["seed"])
+    run.sim.ev("reseed", op=op["id"], seed=op["seed"])
+
+
+async def _async_reseed(run, client, op):
+    _sync_reseed(run, client, op)
+
+
+SYNC_EXEC = {"unary": _sync_unary, "paged": _sync_paged, "lro": _sync_lro, "sstream": _sync_sstream, "reseed": _sync_reseed,
              "cstream": _sync_cstream, "bidi": _sync_bidi}
-ASYNC_EXEC = {"unary": _async_unary, "paged": _async_paged, "lro": _async_lro, "sstream": _async_sstream,
+ASYNC_EXEC = {"unary": _async_unary, "paged": _async_paged, "lro": _async_lro, "sstream": _async_sstream, "reseed": _async_reseed,
               "cstream": _async_cstream, "bidi": _async_bidi}
 
 
